@@ -146,20 +146,35 @@ theorem reread_only_int32 (k : Scalar) : rereadKind k = if k = .int32 then .intL
     exported program (same variables and signatures, every function named on its own).  Then **every** tree `s'` the
     front end can read from the export of `i` elaborates — in `Γ'`, in debug or release builds — to `i` itself with
     the same type `τ`: no conversion is added or lost, every literal gets its kind back, every call selects the same
-    function, every operator works on the same type.
+    function, every operator works on the same type, every written operand and every `out` / `inout` argument is
+    accepted as a mutable place again.
 
-    Hypotheses: `SrcOk s` (the first source is one the parser can produce: no `Int32` literal, no cast to an unnamed
-    literal type — exported trees satisfy it again: `export_is_source`); `OutArgsPlain Γ i` (no `Cast` node in an
-    `out` / `inout` argument position: without it the statement is false, `reelab_fails_out_argument`). -/
+    Hypothesis: `SrcOk s` (the first source is one the parser can produce: no `Int32` literal, no cast to an unnamed
+    literal type — exported trees satisfy it again: `export_is_source`).  Until fix batch 2 the statement needed a
+    second hypothesis, `OutArgsPlain Γ i` (no `Cast` node in an `out` / `inout` argument position), and was false
+    without it (`void g(out float1 p); float y; g(y)` was accepted as `g(Cast(float1, y))`, whose export is rejected).
+    Since fix 3758fdd `check_output_arguments` runs on the converted arguments, so that hypothesis is a theorem about
+    every accepted expression (`out_arguments_plain`) and the statement holds without exception. -/
 theorem reelab_no_new_casts {Γ Γ' : Env} (hR : Renamed Γ Γ') (dbg dbg' : Bool) {s : SExpr} {i : IExpr} {τ : ETy}
-    (hs : SrcOk s) (h : elabE dbg Γ s = .ok (i, τ)) (hp : OutArgsPlain Γ i) {s' : SExpr} (hu : Unelab Γ' i s') :
-    elabE dbg' Γ' s' = .ok (i, τ) := reelab_any hR dbg dbg' hs h hp hu
+    (hs : SrcOk s) (h : elabE dbg Γ s = .ok (i, τ)) {s' : SExpr} (hu : Unelab Γ' i s') :
+    elabE dbg' Γ' s' = .ok (i, τ) := reelab_any hR dbg dbg' hs h hu
 
 /-- the same for statements: expression statements, `return e` (conversion to the return type) and `T v = e`
     (conversion to the variable's type) are rebuilt identically -/
 theorem reelab_stmt_no_new_casts {Γ Γ' : Env} (hR : Renamed Γ Γ') (dbg dbg' : Bool) {s : SStmt} {st : IStmt}
-    (hs : SrcStmtOk s) (h : elabStmt dbg Γ s = .ok st) (hp : OutArgsPlainStmt Γ st) {s' : SStmt}
-    (hu : UnelabStmt Γ' st s') : elabStmt dbg' Γ' s' = .ok st := reelab_stmt hR dbg dbg' hs h hp hu
+    (hs : SrcStmtOk s) (h : elabStmt dbg Γ s = .ok st) {s' : SStmt}
+    (hu : UnelabStmt Γ' st s') : elabStmt dbg' Γ' s' = .ok st := reelab_stmt hR dbg dbg' hs h hu
+
+/-- **out_arguments_plain** (positive form of the former witness `reelab_fails_out_argument`, fix 3758fdd): in every
+    accepted expression, at every call anywhere in the tree, no argument given for an `out` / `inout` parameter is a
+    `Cast` node — the type checker refuses (`LvalueRequired`) a call whose `out` / `inout` argument needs a conversion,
+    because a `Cast` is an rvalue for `check_mutable_place`.  Debug or release build; any source expression. -/
+theorem out_arguments_plain {Γ : Env} (dbg : Bool) {s : SExpr} {i : IExpr} {τ : ETy}
+    (h : elabE dbg Γ s = .ok (i, τ)) : OutArgsPlain Γ i := outArgsPlain_any dbg h
+
+/-- …and in every accepted statement (the conversion to the return / variable type wraps the whole expression) -/
+theorem out_arguments_plain_stmt {Γ : Env} (dbg : Bool) {s : SStmt} {st : IStmt}
+    (h : elabStmt dbg Γ s = .ok st) : OutArgsPlainStmt Γ st := outArgsPlainStmt_any dbg h
 
 /-- an exported tree is a source tree again, so the two theorems above apply to every further generation -/
 theorem export_is_source {Γ' : Env} {i : IExpr} {s' : SExpr} (hu : Unelab Γ' i s') : SrcOk s' := unelab_srcOk i s' hu
@@ -174,9 +189,9 @@ theorem renamed_exists (Γ : Env) : Renamed Γ (uniqueNames Γ) := renamed_uniqu
 /-- **idempotence**: elaborating the export of an elaborated expression gives an expression whose export elaborates
     to it again — the composition `elab ∘ export` is idempotent from the first generation on -/
 theorem reelab_idempotent {Γ Γ' : Env} (hR : Renamed Γ Γ') (hR' : Renamed Γ' Γ') (dbg : Bool) {s s' s'' : SExpr}
-    {i : IExpr} {τ : ETy} (hs : SrcOk s) (h : elabE dbg Γ s = .ok (i, τ)) (hp : OutArgsPlain Γ i)
-    (hp' : OutArgsPlain Γ' i) (hu : Unelab Γ' i s') (hu' : Unelab Γ' i s'') : elabE dbg Γ' s'' = .ok (i, τ) :=
-  reelab_no_new_casts hR' dbg dbg (export_is_source hu) (reelab_no_new_casts hR dbg dbg hs h hp hu) hp' hu'
+    {i : IExpr} {τ : ETy} (hs : SrcOk s) (h : elabE dbg Γ s = .ok (i, τ))
+    (hu : Unelab Γ' i s') (hu' : Unelab Γ' i s'') : elabE dbg Γ' s'' = .ok (i, τ) :=
+  reelab_no_new_casts hR' dbg dbg (export_is_source hu) (reelab_no_new_casts hR dbg dbg hs h hu) hu'
 
 /-! ### non-vacuity -/
 
@@ -210,28 +225,78 @@ example :
 /-- the hypotheses of the theorem hold for it -/
 example : SrcOk sEx := by simp [sEx, SrcOk, SrcArgsOk]; decide
 
-/-! ### the hypothesis on `out` arguments is needed -/
+/-- `int3 v0; bool3 v1; bool v2;` -/
+def ΓVec : Env := { vars := [⟨{}, .vector .int32 3⟩, ⟨{}, .vector .bool 3⟩, ⟨{}, .scalar .bool⟩], funcs := [] }
 
-/-- `float v0;`  `void g(out float1 p);` -/
+/-- non-vacuity on the class fixes 40c6233 / c05bffa made exportable (vector / matrix operations and conditional
+    expressions with a literal operand / arm: `v2 ? v0 : 1.5` is `Tern(v2, Cast(float3, v0), Cast(float3, FloatLiteral))`,
+    exported `v2 ? (float3)v0 : (float3)1.5`; the
+    working type used to be a vector of `IntLiteral` / `FloatLiteral`, which no exporter can name): `v1 + 1` elaborates
+    to `Add(Cast(int3, v1), Cast(int3, IntLiteral 1))`, `v0 * 1.5` to `Mul(Cast(float3, v0), Cast(float3, FloatLiteral))`;
+    the exports `(int3)v1 + (int3)1` / `(float3)v0 * (float3)1.5` are accepted and elaborate to a tree of the same
+    type (and, by `reelab_no_new_casts`, to the same tree: the working kind of the second generation is `int`, not
+    `IntLiteral`, but the same after the remap — `arith_stable_remap`) -/
+example :
+    ((match elabE true ΓVec (.bin .add (.var 1) (.lit .intLiteral)) with
+      | .ok (i, τ) =>
+        decide (τ = ⟨⟨{}, .vector .int32 3⟩, .rvalue⟩) &&
+        (match unelab (uniqueNames ΓVec) i with
+         | some s' =>
+           (match elabE true (uniqueNames ΓVec) s' with
+            | .ok (_, τ') => decide (τ' = τ)
+            | .error _ => false)
+         | none => false)
+      | .error _ => false) &&
+     (match elabE true ΓVec (.tern (.var 2) (.var 0) (.lit .floatLiteral)) with
+      | .ok (i, τ) =>
+        decide (τ = ⟨⟨{}, .vector .float32 3⟩, .rvalue⟩) &&
+        (match unelab (uniqueNames ΓVec) i with
+         | some s' =>
+           (match elabE true (uniqueNames ΓVec) s' with
+            | .ok (_, τ') => decide (τ' = τ)
+            | .error _ => false)
+         | none => false)
+      | .error _ => false) &&
+     (match elabE true ΓVec (.bin .multiply (.var 0) (.lit .floatLiteral)) with
+      | .ok (i, τ) =>
+        decide (τ = ⟨⟨{}, .vector .float32 3⟩, .rvalue⟩) &&
+        (match unelab (uniqueNames ΓVec) i with
+         | some s' =>
+           (match elabE true (uniqueNames ΓVec) s' with
+            | .ok (_, τ') => decide (τ' = τ)
+            | .error _ => false)
+         | none => false)
+      | .error _ => false)) = true := by decide
+
+/-! ### `out` / `inout` arguments (the former exception, repaired by fix 3758fdd) -/
+
+/-- `float v0;`  `void g(out float1 p);`  `void h(out float p, inout float q);` -/
 def ΓOut : Env :=
   { vars := [⟨{}, .scalar .float32⟩],
-    funcs := [⟨7, [⟨⟨{}, .vector .float32 1⟩, .out⟩], 1, ⟨{}, .other 0⟩⟩] }
+    funcs := [⟨7, [⟨⟨{}, .vector .float32 1⟩, .out⟩], 1, ⟨{}, .other 0⟩⟩,
+              ⟨8, [⟨⟨{}, .scalar .float32⟩, .out⟩, ⟨⟨{}, .scalar .float32⟩, .inOut⟩], 2, ⟨{}, .other 0⟩⟩] }
 
-/-- **Negation with a witness.**  `g(v0)` with `float v0` and `void g(out float1 p)` is accepted and elaborates to
-    `g(Cast(float1, v0))` (the `T` ↔ `T1` conversion "works for lvalues" in `ImplicitConversion::find`, but `apply`
-    builds a `Cast`, which is an rvalue); the export `g((float1)v0)` is **rejected** in the second generation
-    (`FunctionArgumentTypeMismatch`: an rvalue for an `out` parameter).  So `reelab_no_new_casts` is false without
-    `OutArgsPlain`, and C04's "the emitted text is accepted" is false on the real compiler: replayed by
-    corpus/C04.txt (`void g(out float1 p) …`, known finding; the same root cause as C03's "rvalue passed to
-    out/inout parameter"). -/
-theorem reelab_fails_out_argument :
-    (match elabE true ΓOut (.call 7 (.cons (.var 0) .nil)) with
-     | .ok (.call 0 (.cons (.cast t (.var 0)) .nil), _) =>
-       decide (t = ⟨{}, .vector .float32 1⟩) &&
-       (match unelab (uniqueNames ΓOut) (.call 0 (.cons (.cast t (.var 0)) .nil)) with
+/-- the input of the former witness: `g(v0)` with `float v0` and `void g(out float1 p)` used to be accepted as
+    `g(Cast(float1, v0))`, whose export `g((float1)v0)` was rejected in the second generation.  Now the call itself is
+    refused — `LvalueRequired`, as the real compiler reports (`lvalue is required in this context`; replayed by the two
+    reproducers kept in corpus/C04.txt, findings converted to `fixed`). -/
+theorem out_argument_conversion_rejected :
+    ((match elabE true ΓOut (.call 7 (.cons (.var 0) .nil)) with
+      | .error (.reject "LvalueRequired") => true
+      | _ => false) &&
+     (match elabE false ΓOut (.call 7 (.cons (.var 0) .nil)) with
+      | .error (.reject "LvalueRequired") => true
+      | _ => false)) = true := by decide
+
+/-- non-vacuity of `out_arguments_plain` / `reelab_no_new_casts` on `out` and `inout` parameters: `h(v0, v0)` is
+    accepted with both arguments passed as they are, exported, accepted again and elaborated to the same call -/
+example :
+    (match elabE true ΓOut (.call 8 (.cons (.var 0) (.cons (.var 0) .nil))) with
+     | .ok (.call 1 (.cons (.var 0) (.cons (.var 0) .nil)), τ) =>
+       (match unelab (uniqueNames ΓOut) (.call 1 (.cons (.var 0) (.cons (.var 0) .nil))) with
         | some s' =>
           (match elabE true (uniqueNames ΓOut) s' with
-           | .error (.reject "FunctionArgumentTypeMismatch") => true
+           | .ok (.call 1 (.cons (.var 0) (.cons (.var 0) .nil)), τ') => decide (τ' = τ)
            | _ => false)
         | none => false)
      | _ => false) = true := by decide
@@ -312,17 +377,17 @@ theorem parsesBack_of_c09 {a : HlslAst.Expr} {t : Format.Expr} (h : toFmt a = so
       the first, i.e. each printed literal is re-read with its value (C10 `lex_float_nearest`, `int_value_exact`, C01
       `literal_value_preserved`) and re-tagged to its kind with that value; checked value by value by the `C04.reelab`
       oracle on the real compiler;
-    * `hs`, `hp` — as in `reelab_no_new_casts`.
+    * `hs` — as in `reelab_no_new_casts` (its former second hypothesis on `out` arguments is gone: fix 3758fdd).
     The text leg (print ∘ parse = id on `a`) is `ParsesBack a`, see `fixpoint_expr_text`. -/
 theorem fixpoint_expr {Γ Γ' : Env} (hR : Renamed Γ Γ') {nm : Names} {cx : Ctx} {ix : Idx}
     (hA : NamesAgree cx ix nm Γ') (hI : IdxInj ix) (dbg dbg' : Bool) {s : SExpr} {i : IExpr} {τ : ETy}
-    (hs : SrcOk s) (hel : elabE dbg Γ s = .ok (i, τ)) (hp : OutArgsPlain Γ i)
+    (hs : SrcOk s) (hel : elabE dbg Γ s = .ok (i, τ))
     {e : Ir.Expr} (he : erase ix e = some i) {a : HlslAst.Expr} (hg : genExpr cx e = .ok a) :
     (∃ s', readBack nm a = some s' ∧ elabE dbg' Γ' s' = .ok (i, τ)) ∧
     (∀ e2, erase ix e2 = some i → leaves e2 = leaves e → e2 = e ∧ genExpr cx e2 = .ok a) := by
   refine ⟨?_, ?_⟩
   · obtain ⟨s', hrb, hu⟩ := bridge_square hA he hg
-    exact ⟨s', hrb, reelab_no_new_casts hR dbg dbg' hs hel hp hu⟩
+    exact ⟨s', hrb, reelab_no_new_casts hR dbg dbg' hs hel hu⟩
   · intro e2 he2 hlit
     have : e2 = e := skeleton_and_constants hI he2 he hlit
     subst this
@@ -356,7 +421,7 @@ theorem fixpoint_expr_text {cx : Ctx} {ix : Idx} (hI : IdxInj ix) {e : Ir.Expr} 
     `fixpoint_expr`, their print / parse round trip by C09.) -/
 theorem fixpoint_stmt {Γ Γ' : Env} (hR : Renamed Γ Γ') {nm : Names} {cx : Ctx} {ix : Idx}
     (hA : NamesAgree cx ix nm Γ') (dbg dbg' : Bool) {s : SStmt} {st : IStmt} (hs : SrcStmtOk s)
-    (hel : elabStmt dbg Γ s = .ok st) (hp : OutArgsPlainStmt Γ st)
+    (hel : elabStmt dbg Γ s = .ok st)
     {stI : Ir.Stmt} (he : eraseStmt ix cx.vty stI = some st) {sa : HlslAst.Stmt} (hg : genStmt cx stI = .ok sa) :
     ∃ s', readBackStmt nm sa = some s' ∧ elabStmt dbg' Γ' s' = .ok st := by
   cases stI with
@@ -372,13 +437,13 @@ theorem fixpoint_stmt {Γ Γ' : Env} (hR : Renamed Γ Γ') {nm : Names} {cx : Ct
       | ok a =>
         simp [hge, Except.map] at hg; subst hg
         obtain ⟨s', hrb, hu⟩ := bridge_square hA hee hge
-        exact ⟨.expr s', by simp [readBackStmt, hrb], reelab_stmt_no_new_casts hR dbg dbg' hs hel hp (.expr hu)⟩
+        exact ⟨.expr s', by simp [readBackStmt, hrb], reelab_stmt_no_new_casts hR dbg dbg' hs hel (.expr hu)⟩
   | ret eo =>
     cases eo with
     | none =>
       simp [eraseStmt] at he; subst he
       simp [genStmt, genOptExpr, Except.map] at hg; subst hg
-      exact ⟨.ret none, by simp [readBackStmt], reelab_stmt_no_new_casts hR dbg dbg' hs hel hp .retNone⟩
+      exact ⟨.ret none, by simp [readBackStmt], reelab_stmt_no_new_casts hR dbg dbg' hs hel .retNone⟩
     | some e =>
       simp only [eraseStmt] at he
       cases hee : erase ix e with
@@ -391,7 +456,7 @@ theorem fixpoint_stmt {Γ Γ' : Env} (hR : Renamed Γ Γ') {nm : Names} {cx : Ct
         | ok a =>
           simp [hge, Except.map] at hg; subst hg
           obtain ⟨s', hrb, hu⟩ := bridge_square hA hee hge
-          exact ⟨.ret (some s'), by simp [readBackStmt, hrb], reelab_stmt_no_new_casts hR dbg dbg' hs hel hp (.ret hu)⟩
+          exact ⟨.ret (some s'), by simp [readBackStmt, hrb], reelab_stmt_no_new_casts hR dbg dbg' hs hel (.ret hu)⟩
   | var id init =>
     cases init with
     | none => simp [eraseStmt] at he
@@ -413,7 +478,7 @@ theorem fixpoint_stmt {Γ Γ' : Env} (hR : Renamed Γ Γ') {nm : Names} {cx : Ct
             obtain ⟨s', hrb, hu⟩ := bridge_square hA hee hge
             exact ⟨.init (eraseTy (cx.vty (.loc id))) s',
               by simp [readBackStmt, hrb, RsslVerif.Lemmas.FixpointBridge.tyOfName_typeName _ _ htn],
-              reelab_stmt_no_new_casts hR dbg dbg' hs hel hp (.init hu)⟩
+              reelab_stmt_no_new_casts hR dbg dbg' hs hel (.init hu)⟩
   | _ => simp [eraseStmt] at he
 
 /-! ### non-vacuity: `a = b + 3` with `int a, b` -/
@@ -472,13 +537,11 @@ example :
   have hR : Renamed ΓInt ΓInt :=
     ⟨rfl, rfl, fun f sg h => by simp [ΓInt] at h, fun f g sf sg h => by simp [ΓInt] at h⟩
   have hel : ∃ i τ, elabE true ΓInt (.bin .assignment (.var 0) (.bin .add (.var 1) (.lit .intLiteral))) = .ok (i, τ) ∧
-      erase ixEx eEx = some i ∧ OutArgsPlain ΓInt i := by
-    refine ⟨_, _, rfl, rfl, ?_⟩
-    simp [OutArgsPlain, OutArgsPlainArgs]
-  obtain ⟨i, τ, h1, h2, h3⟩ := hel
+      erase ixEx eEx = some i := ⟨_, _, rfl, rfl⟩
+  obtain ⟨i, τ, h1, h2⟩ := hel
   have hg : genExpr cxEx eEx = .ok aEx := by rfl
   obtain ⟨⟨s', hrb, hs'⟩, _⟩ := fixpoint_expr hR namesAgreeEx idxInjEx true true
-    (by simp [SrcOk]; decide) h1 h3 h2 hg
+    (by simp [SrcOk]; decide) h1 h2 hg
   refine ⟨⟨s', hrb, by rw [hs', h1]⟩, ?_⟩
   exact parsesBack_of_c09 (t := .bin .Assignment (.id "a") (.bin .Add (.id "b") (.lit ⟨.IntUntyped, false, 3⟩))) rfl
     (by simp [WF]; decide)
